@@ -356,11 +356,17 @@ def expandCond (ut : List (Str × Str)) (brs : List (Str × List BItem)) (els : 
   if taken.isEmpty then (match els with | some e => e | none => [])
   else (taken.map (·.2)).flatten
 
-/-- "first is the law": the inline defaults of user-tag driven FOR blocks, collected over all
-    files in order; the first default given for a tag serves every FOR over that tag -/
+/-- the inline defaults of user-tag driven FOR blocks, collected over all files in order and shared by
+    every FOR over that tag.  As the code does it (`do_user_tags`, first loop): a default replaces the one
+    collected before for the same tag - the comment there says "first is the law", but the membership
+    test looks the default's *value* up among the collected tag names, so an earlier default survives only
+    when the later one is spelled like a tag already collected (DESIGN 11.6) -/
 def forDefaults (files : List (List Item)) : List (Str × Str) :=
   (files.flatten).foldl (fun acc it => match it with
-    | .loop _ (.userTag n (some d)) _ => if acc.any (fun kv => kv.1 == n) then acc else acc ++ [(n, d)]
+    | .loop _ (.userTag n (some d)) _ =>
+      if acc.any (fun kv => kv.1 == d) then acc
+      else if acc.any (fun kv => kv.1 == n) then acc.map (fun kv => if kv.1 == n then (n, d) else kv)
+      else acc ++ [(n, d)]
     | _ => acc) []
 
 def forItems (fd : List (Str × Str)) (p : ForParam) (ut : List (Str × Str)) : Option (List Str) :=
